@@ -633,11 +633,11 @@ impl<M: Manager, W: From<Object<M>>> Pool<M, W> {
     pub fn status(&self) -> Status {
         let slots = self.inner.slots.lock().unwrap();
         let users = self.inner.users.load(Ordering::Relaxed);
-        let (available, waiting) = if users < slots.size {
-            (slots.size - users, 0)
-        } else {
-            (0, users - slots.size)
-        };
+        // Idle objects are available. Every other object is either checked
+        // out or in the hands of a `get()` call, and so accounts for one of
+        // the `users`. The remaining users are still waiting for an object.
+        let available = slots.vec.len();
+        let waiting = users.saturating_sub(slots.size - available);
         Status {
             max_size: slots.max_size,
             size: slots.size,
